@@ -75,7 +75,9 @@ func versStr(vs []resolve.Version) string {
 	return "[" + strings.Join(s, "; ") + "]"
 }
 
-func reqStr(q resolve.RequirementVersion) string { return vkStr(q.VersionKey) + " (" + typeStr(q.Type) + ")" }
+func reqStr(q resolve.RequirementVersion) string {
+	return vkStr(q.VersionKey) + " (" + typeStr(q.Type) + ")"
+}
 
 func reqsStr(rs []resolve.RequirementVersion, sorted bool) string {
 	s := make([]string, len(rs))
